@@ -153,9 +153,19 @@ func convertVMFunctionToType(rv reflect.Value, rt reflect.Type) (reflect.Value, 
 		// for runVMFunction first arg is always context
 		// TOFIX: use normal context
 		args = append(args, reflect.ValueOf(context.Background()))
+		// the variadic parameter of a variadic runVMFunction is a []interface{}
+		// that takes the plain values, not the double reflect.ValueOf
+		numFixed := rt.NumIn()
+		if rv.Type().IsVariadic() {
+			numFixed = rv.Type().NumIn() - 2
+		}
 		for i := 0; i < rt.NumIn(); i++ {
-			// have to do the double reflect.ValueOf that runVMFunction expects
-			args = append(args, reflect.ValueOf(in[i]))
+			if i < numFixed {
+				// have to do the double reflect.ValueOf that runVMFunction expects
+				args = append(args, reflect.ValueOf(in[i]))
+			} else {
+				args = append(args, in[i])
+			}
 		}
 
 		// Call runVMFunction
